@@ -500,6 +500,7 @@ type FaultErr struct {
 	Inner   error
 	timeout bool
 	list    bool
+	op      bool
 }
 
 func (e *FaultErr) Error() string {
@@ -518,6 +519,11 @@ func (e *FaultErr) Unwrap() error { return e.Inner }
 func (e *FaultErr) Wire() error {
 	if e.list {
 		return ErrList{e}
+	}
+	if e.op {
+		// what a net.Conn really returns: an *net.OpError around the cause. THAT value
+		// is the reader's error E (see WireIsE).
+		return &net.OpError{Op: "read", Net: "tcp", Err: e}
 	}
 	return e
 }
@@ -574,6 +580,9 @@ func NewFaultErr(c *sim.Ctx, what string) (*FaultErr, string) {
 	if c.T.Bool(1, 8) {
 		e.list = true
 		kind += "+delivered-inside-an-uncomparable-error-value"
+	} else if c.T.Bool(1, 6) {
+		e.op = true
+		kind += "+delivered-as-*net.OpError"
 	}
 	c.Count("fault.error-kind:" + kind)
 	return e, kind
